@@ -141,6 +141,18 @@ CHECKS = {
              "and by running five interfaces of generated twin pairs (numbers, quantities, SkyCoord in five frames, SpectralCoord, Time, pixel "
              "quantities; error classes included) against the Q instance in Coq. Composite frames exercised by the oracle only.",
         ref="5 C16", technique="Coq proof over generic (Q/R) hand model + AST pins + vm_compute correspondence incl. error classes + twin oracle"),
+    "C20": dict(
+        text="Theorems over the reals about the rotation a fiducial WCS is built from (model of astropy's zxz Euler rotation on direction "
+             "cosines): the native pole, where every zenithal projection puts its reference point, is carried onto the fiducial for every "
+             "fiducial and every pole longitude; norm preserved; FITS default LONPOLE rule; and a REFUTATION witness: with a projection whose "
+             "reference point is not the native pole the construction does not anchor the fiducial (replayed: known finding). Theorems over "
+             "the rationals: read_wcs_from_header defaults and fitswcs_linear = the FITS paper I definition in PC+CDELT and CD form (0-based), "
+             "reference pixel -> origin, omitted PC -> identity, omitted CD -> 0, any CDi_j selects CD form, stage order matters. Theorems "
+             "over the reals: every least-squares minimiser reproduces exactly-representable samples; assembly of the fitted pipeline. Tied by "
+             "AST pins, exact correspondence of the header/linear model on random dyadic headers, the LONPOLE rule against _compute_lon_pole "
+             "for all projections, numeric transcription check of the rotation. PARTIAL: between-sample agreement, inverse-polynomial "
+             "accuracy, astropy projections are measured by the wcslib / generating-WCS oracle.",
+        ref="5 C20", technique="Coq proof over R and Q (hand models, incl. refutation witness) + AST pins + exact header correspondence + wcslib / generating-WCS differential"),
     "C11": dict(
         text="Theorems over the rationals about the -TAB bookkeeping: node_exact (the FITS reader's index at the pixel of node k is "
              "exactly k+1 for every box and sampling: the tabulated value, no interpolation), table_spans_box, index_affine, "
